@@ -209,9 +209,9 @@ def audit(pid):
             f.write("#print axioms %s\n" % t)
     rc, out = sh(["lake", "env", "lean", os.path.join("Audit", pid + ".lean")], cwd=LEAN, timeout=1200)
     details = {}
-    for m in re.finditer(r"'([^']+)' depends on axioms: \[([^\]]*)\]", out, re.S):
+    for m in re.finditer(r"^'(\S+)' depends on axioms: \[([^\]]*)\]", out, re.S | re.M):
         details[m.group(1)] = sorted(a.strip() for a in m.group(2).replace("\n", " ").split(",") if a.strip())
-    for m in re.finditer(r"'([^']+)' does not depend on any axioms", out):
+    for m in re.finditer(r"^'(\S+)' does not depend on any axioms", out, re.M):
         details[m.group(1)] = []
     discharged = [t for t in thms if t in details and set(details[t]) <= ALLOWED_AXIOMS]
     cmd = "cd lean && lake build Qco.Properties.%s && lake env lean Audit/%s.lean" % (pid, pid)
